@@ -870,4 +870,33 @@ example : survivesEveryException foreignSend
     (.seq (.ev (.act ⟨.read, "send_bytes"⟩)) (.tryExc (.ev (.act ⟨.call, "self._socket.sendto"⟩)) (.ev (.act ⟨.exc, "Exception"⟩)))) = false := by
   decide +kernel
 
+/-! ### the blocking client's session glue -/
+
+/-- **the blocking client refreshes only when connected**: in `GeckoSpa.refresh` (called by the ping thread once per ping period and
+by the shell) a sequence number is drawn and a request handed to the structure only on the path on which `not self.is_connected` was
+found false - during the hand-shake the shared assembly state of the outstanding full-block request is left alone (round 15) -/
+theorem refresh_only_when_connected :
+    onlyUnderBothGuards (fun _ => false) (isBranch false "not self.is_connected") (isBranch false "not self.is_connected")
+      (isCallOf "self.struct.retry_request") sk_spa__GeckoSpa_refresh = true ∧
+    onlyUnderBothGuards (fun _ => false) (isBranch false "not self.is_connected") (isBranch false "not self.is_connected")
+      (isCallOf "self.get_and_increment_sequence_counter") sk_spa__GeckoSpa_refresh = true := by decide +kernel
+
+/-- `_final_connect` (accessors built, `_is_connected` set) is reached from the engine's loop hook only with the socket open, a
+complete block received and the connection not yet marked; the ping thread's iteration is: ping, refresh, wait one period -/
+theorem final_connect_needs_an_open_socket_and_a_block :
+    onlyUnderBothGuards (fun _ => false) (isBranch true "self.isopen") (isBranch true "self.struct.had_at_least_one_block")
+      (isCallOf "self._final_connect") sk_spa__GeckoSpa__loop_func = true ∧
+    onlyUnderBothGuards (fun _ => false) (isBranch false "self._is_connected") (isBranch false "self._is_connected")
+      (isCallOf "self._final_connect") sk_spa__GeckoSpa__loop_func = true ∧
+    actions .call sk_spa__GeckoSpa__ping_thread_func = ["queue_send", "self.refresh", "self.wait", "time.monotonic"] := by decide +kernel
+
+/-- **every write the blocking structure hands over is sent**: `GeckoSpa._on_set_value` has no early return - on its only path it
+registers the acknowledgement handler and queues ONE set-value command (over the regenerated skeleton; round 15: a command equal
+to the client's mirror was dropped while the report of the previous write was still under way) -/
+theorem every_blocking_set_value_is_sent :
+    everyNormalEndDid (fun a => a.kind == .call && a.name == "queue_send") sk_spa__GeckoSpa__on_set_value = true ∧
+    everyNormalEndDid (fun a => a.kind == .call && a.name == "self.add_receive_handler") sk_spa__GeckoSpa__on_set_value = true ∧
+    (actions .call sk_spa__GeckoSpa__on_set_value).count "queue_send" = 1 ∧
+    outs sk_spa__GeckoSpa__on_set_value = [.fall] := by decide +kernel
+
 end GeckoModel.C20.Locking
